@@ -70,12 +70,16 @@ func main() {
 	full := flag.Bool("full", false, "keep schedules in results")
 	deep := flag.Bool("deep", false, "deeper bounds (thorough tier): larger expressions, more files, tasks and ops")
 	pb1 := flag.Int("pb1", 0, "bounded systematic search: run each generated case under every single-preemption schedule (at most this many runs per case)")
+	noRetain := flag.Bool("noretain", false, "force every case into the mode in which pools retain nothing")
 	emitCase := flag.Bool("emitcase", false, "attach the generated case to every result")
 	flag.Parse()
 
 	var inflight *Case
 	zzsim.DieHook = func(verdict, detail string) {
 		st := zzsim.Snapshot()
+		if InReference {
+			detail += " — while the task's program was running ALONE (sequential reference): an evaluation of this configuration blocks even without any concurrency"
+		}
 		emit(line{Ev: "die", Verdict: verdict, Detail: detail, Case: inflight, Stats: &st})
 	}
 
@@ -104,6 +108,9 @@ func main() {
 		seed := zzsim.Mix(*base, i) | 1
 		p := profileFor(*profile, i)
 		c := genCase(seed, p, *deep, i%64 == 0)
+		if *noRetain {
+			c.PoolsRetain = false
+		}
 		inflight = c
 		emit(line{Ev: "start", I: i, Seed: seed, Profile: p})
 		if *pb1 > 0 {
